@@ -41,6 +41,19 @@ Proof.
 Qed.
 Print Assumptions C13_pristine.
 
+(* The hypothesis is needed, and the model shows why: a caller-made raw fragment that is a lone
+   closing marker is removed again by the elision of the next unsafe write; an empty unsafe write
+   then leaves "envelope open" set on an EMPTY buffer, which finalize does not close - Take hands
+   back a buffer that is not the initial one, and the next unsafe write appears without its opening
+   marker.  (Observed on the implementation too, by two of the seeded-change sub-agents; such a
+   fragment is not a redactable string the library produces: rawok = false.) *)
+Example C13_pristine_needs_wellformed_raw_input :
+  let ops := [OMode MRaw; OWrite [226;128;186]; OMode MUnsafe; OWrite []]%N in
+  rawok ops = false /\
+  fst (step (run ops) OTake) <> init /\
+  output (ops ++ [OTake; OWrite [97]])%N = [97;226;128;186]%N.
+Proof. vm_compute. repeat split; congruence. Qed.
+
 (* MEMORY LEVEL (BufMem.v: heap of arrays, a struct is (array, len, validUntil, mode, markerOpen),
    copying a struct shares the array, slice expressions are checked).  The accessors finalize a
    COPY of the struct: the heap changes (a closing marker appended into the spare capacity, or a
